@@ -58,6 +58,13 @@ class Ctx:
             raise Out()
         return ("int", z)
 
+    def chk_nat(self, z):
+        # a Natural operand may lie anywhere below 2^64 (D90); from 2^62 up it is only used by
+        # comparisons, && / ||, == / != and as the whole expression (see pe)
+        if z < 0 or z >= (1 << 64):
+            raise Out()
+        return ("int", z)
+
     def chk_real(self, q):
         q = Fraction(q)
         if abs(q) >= B52:
@@ -72,6 +79,8 @@ class Ctx:
 def numeral_value(cx, s):
     """python reading of the restricted numerals; None when s is not a numeral"""
     import re
+    if re.fullmatch(r"(0|[1-9][0-9]*)", s):
+        return cx.chk_nat(int(s))
     if re.fullmatch(r"-?(0|[1-9][0-9]*)", s):
         return cx.chk_int(int(s))
     if re.fullmatch(r"-?(0|[1-9][0-9]*)(\.[0-9]+)?([eE][+-]?[0-9]+)?", s):
@@ -85,7 +94,9 @@ def numeral_value(cx, s):
 
 def var_number(cx, v):
     k = v[0]
-    if k == "n" or k == "i":
+    if k == "n":
+        return cx.chk_nat(v[1])
+    if k == "i":
         return cx.chk_int(v[1])
     if k == "r":
         return cx.chk_real(Fraction(v[1]) * Fraction(2) ** v[2])
@@ -107,7 +118,9 @@ def var_text(v):
 
 def pe_leaf(cx, ctx, t):
     k = t[0]
-    if k == "n" or k == "i":
+    if k == "n":
+        return cx.chk_nat(t[1])
+    if k == "i":
         return cx.chk_int(t[1])
     if k == "d":
         return cx.chk_real(t[1])
@@ -174,6 +187,8 @@ def pe(cx, ctx, t):
         return ("int", int((Fraction(a[1]) == Fraction(b[1])) != (op == 4)))
     if a[0] == "text" or b[0] == "text":
         raise Out()
+    if op in (9, 10, 11, 12, 13, 14, 15, 16) and ((a[0] == "int" and abs(a[1]) >= B62) or (b[0] == "int" and abs(b[1]) >= B62)):
+        raise Out()              # arithmetic on a Natural from 2^62 up: outside the no-overflow domain
     real = a[0] == "real" or b[0] == "real"
     x, y = Fraction(a[1]), Fraction(b[1])
     if op == 11:
@@ -371,6 +386,9 @@ def rand_env(rng):
         "px": ("s", rng.choice(PREFIX_TEXTS)),
         "py": ("s", rng.choice(PREFIX_TEXTS)),
         "pd": ("s", rng.choice(DOT_NUMERALS)),
+        "big": ("n", (1 << 64) - 1),
+        "b63": ("n", 1 << 63),
+        "bw": ("n", rng.choice([(1 << 63) + 1, (1 << 64) - 2, rng.randrange(1 << 63, 1 << 64)])),
         "t": ("t",), "f": ("f",), "z": ("z",), "a": ("a",),
     }
     # drop some so that they are missing
@@ -466,7 +484,7 @@ def accept(tree, env, allow_inexact=False):
 
 def gen_cases(rng, tier, boost=1):
     cases = []
-    dist = {"adjacent_ops": 0, "random_trees": 0, "equality": 0, "kind_pairs": 0, "trailing_prefix": 0, "prefix_text": 0, "inexact": 0, "single": 0, "novalue": 0}
+    dist = {"adjacent_ops": 0, "random_trees": 0, "equality": 0, "kind_pairs": 0, "trailing_prefix": 0, "prefix_text": 0, "wide_naturals": 0, "inexact": 0, "single": 0, "novalue": 0}
     nov = [0]
 
     def emit(tree, env, cls, extra=0.25, allow_inexact=False):
@@ -676,6 +694,55 @@ def gen_cases(rng, tier, boost=1):
         okc = emit(strip_p(t), env, "prefix_text", extra=rng.choice([0, 0.2]))
         nov[0] = nov_before + (nov[0] if okc else 0)
         if okc:
+            made += 1
+
+    # 9. D90: Naturals in [2^63, 2^64) as operands of comparisons, && / ||, == / !=, alone and in parentheses
+    #    (literals, variables, a numeric string), against naturals, negative and positive integers, reals
+    def wide_leaf(env):
+        r = rng.random()
+        if r < 0.35:
+            return ("n", rng.choice([1 << 63, (1 << 64) - 1, (1 << 63) + 1, (1 << 64) - 2, rng.randrange(1 << 63, 1 << 64)]))
+        if r < 0.8:
+            return ("v", rng.choice(["big", "b63", "bw"]))
+        env["bs"] = ("s", str(rng.choice([(1 << 64) - 1, 1 << 63, rng.randrange(1 << 63, 1 << 64)])))
+        return ("v", "bs")
+
+    def narrow_leaf(env):
+        r = rng.random()
+        if r < 0.3:
+            return ("n", rng.choice([0, 1, 2, 9223372036854775807, (1 << 62) + 5, rng.randrange(0, 1000)]))
+        if r < 0.55:
+            return ("i", -rng.choice([1, 2, 9223372036854775807, (1 << 62) + 1, rng.randrange(1, 1000)]))
+        if r < 0.7:
+            s = rng.choice(["0.5", "1.5", "-0.5", "2.0", "-2.25", "1e3"])
+            return ("d", Fraction(s), s)
+        if r < 0.85:
+            env["i"] = ("i", -rng.choice([1, 3, 9223372036854775807]))
+            return ("v", rng.choice(["i", "n", "r", "t", "z"]))
+        return wide_leaf(env)
+    CMPS = [5, 6, 7, 8, 3, 4, 1, 2]
+    n = (600 if tier == "quick" else 12000) * boost
+    made = 0
+    tries = 0
+    while made < n and tries < 30 * n:
+        tries += 1
+        env = rand_env(rng)
+        for k, v in (("big", (1 << 64) - 1), ("b63", 1 << 63)):
+            env[k] = ("n", v)
+        if "bw" not in env:
+            env["bw"] = ("n", rng.randrange(1 << 63, 1 << 64))
+        r = rng.random()
+        w = wide_leaf(env)
+        if r < 0.12:
+            t = w if rng.random() < 0.6 else ("p", w)
+        elif r < 0.62:
+            o = narrow_leaf(env)
+            t = ("o", rng.choice(CMPS), w, o) if rng.random() < 0.5 else ("o", rng.choice(CMPS), o, w)
+        elif r < 0.8:
+            t = ("o", rng.choice(CMPS), ("o", rng.choice(CMPS), w, narrow_leaf(env)), ("o", rng.choice(CMPS), narrow_leaf(env), wide_leaf(env)))
+        else:
+            t = ("o", rng.choice([11, 12, 13]), ("o", rng.choice(CMPS), w, narrow_leaf(env)), rand_num_leaf(rng, small=True))
+        if emit(strip_p(t), env, "wide_naturals", extra=rng.choice([0, 0.2])):
             made += 1
 
     # 5. real arithmetic with inexact intermediates (+ * / only): model must agree bit for bit,
@@ -966,7 +1033,7 @@ def check(tier):
         "theorems": [{"name": n, "assumptions": a} for n, a in theorems],
         "evaluations": len(cases),
         "distinct_nontrivial": nt,
-        "rule": "generated expression trees (depth <= 5) over 16 operators, literals (naturals, negatives, dyadic decimals, exponent forms), variables of 15 kinds incl. missing; printed with random spacing and redundant parentheses; every ordered pair of adjacent operators followed by a third; each through ParseExpressions+Evaluate, {math:}, {if}, <if>; non-trivial = at least two operators",
+        "rule": "generated expression trees (depth <= 5) over 16 operators, literals (naturals up to 2^64-1, negatives, dyadic decimals, exponent forms), variables of 15 kinds incl. missing; printed with random spacing and redundant parentheses; every ordered pair of adjacent operators followed by a third; each through ParseExpressions+Evaluate, {math:}, {if}, <if>; non-trivial = at least two operators",
         "samples": [case_text(cases[0]), case_text(cases[len(cases) // 2]), case_text(cases[-1])],
         "input_distribution": dist,
         "traces_validated_against_impl": len(cases),
